@@ -8,7 +8,7 @@ use yasna::Tag;
 #[cfg(feature = "pem")]
 use crate::ENCODE_CONFIG;
 use crate::{
-	check_time, dt_strip_nanos, dt_to_generalized, oid, write_distinguished_name, write_dt_utc_or_generalized,
+	check_ia5, check_time, dt_strip_nanos, dt_to_generalized, oid, write_distinguished_name, write_dt_utc_or_generalized,
 	write_x509_authority_key_identifier, write_x509_extension, Certificate, Error, Issuer,
 	KeyIdMethod, KeyPair, KeyUsagePurpose, SerialNumber,
 };
@@ -107,6 +107,11 @@ pub struct CrlDistributionPoint {
 }
 
 impl CrlDistributionPoint {
+	/// The URIs are written as IA5String, which only admits ASCII.
+	pub(crate) fn check_encodable(&self) -> Result<(), Error> {
+		self.uris.iter().try_for_each(|uri| check_ia5(uri))
+	}
+
 	pub(crate) fn write_der(&self, writer: DERWriter) {
 		// DistributionPoint SEQUENCE
 		writer.write_sequence(|writer| {
@@ -216,6 +221,11 @@ impl CertificateRevocationListParams {
 	}
 
 	fn serialize_der(&self, issuer: Issuer) -> Result<Vec<u8>, Error> {
+		if let Some(issuing_distribution_point) = &self.issuing_distribution_point {
+			issuing_distribution_point
+				.distribution_point
+				.check_encodable()?;
+		}
 		check_time(self.this_update)?;
 		check_time(self.next_update)?;
 		for revoked_cert in &self.revoked_certs {
